@@ -42,7 +42,7 @@ RULE = ("one case = one edit history of 5-60 steps (thorough: up to 110) on a po
         "model; kinds: BayesianNetwork (str or int node names, incl. latent flags), DAG/BayesianNetwork "
         "construction from acyclic / cyclic / self-loop edge lists, DynamicBayesianNetwork ((name, slice) nodes), "
         "MarkovNetwork, JunctionTree; ops add_node(s)/add_edge(s)/remove_node(s)/add_cpds|factors/"
-        "remove_cpds|factors/do/copy/get_random_cpds/check_model/get_cpds/query plus an aliasing probe (in-place "
+        "remove_cpds|factors/do/copy/get_random_cpds/check_model/get_cpds/query plus re-registration of a CPD after an edge into its node was added / removed (changed parent set or other parent order) and an aliasing probe (in-place "
         "marginalize/normalize of one attached CPD/factor through its handle) with ~25 % invalid arguments "
         "(cycle-closing edge, self loop, unknown node, foreign CPD variable, non-CPD object, backward / "
         "far-slice DBN edges, disjoint or unhashable cliques); cards 1-3; 6 names. non-trivial: >= 8 executed "
@@ -144,6 +144,9 @@ def gen_case(seed, idx, tier):
               "bad": rng.random() < ops.BAD_RATE.get(op, 0.25), "flag": rng.random() < 0.5,
               "m": rng.randrange(1000)}
         steps.append(st)
+        if op == "rewire":          # an edge into a CPD owner changed: re-register its CPD on the same object next
+            steps.append({"op": "reregister", "t": st["t"], "r": rng.randrange(2 ** 31), "bad": False,
+                          "flag": rng.random() < 0.5, "m": rng.randrange(1000)})
     spec["steps"] = steps
     return spec
 
